@@ -64,7 +64,9 @@ theorem finishReal_kind (c : List Nat) (e : Nat) (neg : Bool) (num off tmp start
   · rename_i r' hh
     injection h with h; subst h
     rw [tailLoop_inl_kind c e num _ _ _ _ _ hh]; simp
-  · exact realResult_kind _ _ _ _ _ _ _ h
+  · split at h
+    · injection h with h; subst h; simp
+    · exact realResult_kind _ _ _ _ _ _ _ h
 
 theorem afterScan_integer (c : List Nat) (e : Nat) (neg : Bool) (start : Nat) (fo : Bool) (s : Scan) (r : Res)
     (h : afterScan c e neg start fo s = some r) (hk : r.kind = .integer) : 2 ^ 63 ≤ r.bits ∧ r.bits < 2 ^ 64 := by
